@@ -161,17 +161,18 @@ Proof.
   - destruct (_ || _); [discriminate|]. intros E. inversion E; subst. now left.
   - destruct (_ || _); [discriminate|].
     set (l := peek (eat_ws i)). set (m := peek (adv (eat_ws i))).
+    set (third := eqc (peek (adv (adv (eat_ws i)))) 61 || eqc (peek (adv (adv (eat_ws i)))) 60 || eqc (peek (adv (adv (eat_ws i)))) 62).
     destruct (eqc l 62 && eqc m 61) eqn:A.
-    { cbn [orb]. intros E. inversion E; subst. apply andb_true_iff in A as [A1 A2].
+    { cbn [orb]. destruct third; [discriminate|]. intros E. inversion E; subst. apply andb_true_iff in A as [A1 A2].
       rewrite (eqc_true _ _ A1), (eqc_true _ _ A2). right. left. reflexivity. }
     destruct (eqc l 60 && eqc m 61) eqn:B.
-    { cbn [orb]. intros E. inversion E; subst. apply andb_true_iff in B as [A1 A2].
+    { cbn [orb]. destruct third; [discriminate|]. intros E. inversion E; subst. apply andb_true_iff in B as [A1 A2].
       rewrite (eqc_true _ _ A1), (eqc_true _ _ A2). right. right. left. reflexivity. }
     destruct (eqc l 60 && eqc m 60) eqn:C.
-    { cbn [orb]. intros E. inversion E; subst. apply andb_true_iff in C as [A1 A2].
+    { cbn [orb]. destruct third; [discriminate|]. intros E. inversion E; subst. apply andb_true_iff in C as [A1 A2].
       rewrite (eqc_true _ _ A1), (eqc_true _ _ A2). right. right. right. left. reflexivity. }
     destruct (eqc l 62 && eqc m 62) eqn:D; [|discriminate].
-    cbn [orb]. intros E. inversion E; subst. apply andb_true_iff in D as [A1 A2].
+    cbn [orb]. destruct third; [discriminate|]. intros E. inversion E; subst. apply andb_true_iff in D as [A1 A2].
     rewrite (eqc_true _ _ A1), (eqc_true _ _ A2). right. right. right. right. left. reflexivity.
 Qed.
 
